@@ -6,6 +6,7 @@ OBLIGATIONS = [
 ]
 OBLIGATIONS.append(dict(id='C06.limit.parse', engine='V', verus_fn='Parser::parse_limit', label='C06.limit.parse', complete=True, bound=None, units=[], harness='verus:Parser::parse_limit', tier='quick',
     desc='for every token vector: no LIMIT token -> Ok(0) and the cursor is unchanged; LIMIT followed by a word -> the u32 that word denotes, or Err when it denotes none; LIMIT followed by anything else -> Err'))
-CANARIES = [dict(harness='verif_frag::gate_exit_dir::canary_must_fail', units=['gate_exit_dir']), dict(harness='verif_frag::gate_exit_archive::canary_must_fail', units=['gate_exit_archive'])]
+OBLIGATIONS.append(ob('C06.found.accounting', 'verif_frag::rowprologue::c06_found_accounting', 'check_file prologue (verbatim on a shim world), all inputs: an entry is counted in `found` (the quantity the LIMIT gates compare with) exactly once when there is no WHERE or its WHERE condition holds, and not at all when it is rejected; the condition is evaluated once', units=['rowprologue']))
+CANARIES = [dict(harness='verif_frag::rowprologue::canary_rowprologue_must_fail', units=['rowprologue']), dict(harness='verif_frag::gate_exit_dir::canary_must_fail', units=['gate_exit_dir']), dict(harness='verif_frag::gate_exit_archive::canary_must_fail', units=['gate_exit_archive'])]
 ASSUMPTIONS = ['self.found counts accepted rows (check_file, unverified)', 'is_buffered() is true exactly for ordered or aggregated queries (unverified)']
 NOT_COVERED = ['TopN::insert for arbitrary histories (BTreeMap: beyond CBMC and Verus here)', 'found accounting in check_file', 'implicit limit 1']
